@@ -185,3 +185,111 @@ Example timer_witness :
   | None => (false, 0)
   end = (true, 5).
 Proof. vm_compute. reflexivity. Qed.
+
+(* ------------------------------------------------------------------ the timer is not lost: until it has been processed its
+   entry stays in the queue (no operation removes a queue entry except the pop that processes it) *)
+Definition Pending (k : kern) (e : nat) : Prop := (e < length (evs k))%nat /\ (Queued k e \/ e_proc (get_ev k e) = true).
+
+Lemma get_ev_upd_proc k e' (f : ev -> ev) e :
+  (forall y, e_proc (f y) = e_proc y) -> (e < length (evs k))%nat ->
+  e_proc (nth e (upd e' f (evs k)) ev0) = e_proc (get_ev k e).
+Proof.
+  intros F L. unfold get_ev. destruct (Nat.eq_dec e' e) as [->|N]; [rewrite nth_upd_same by exact L; apply F|rewrite nth_upd_neq by exact N; reflexivity].
+Qed.
+
+Lemma pending_evs_only k k' e :
+  queue k' = queue k -> (length (evs k) <= length (evs k'))%nat ->
+  (forall e0, (e0 < length (evs k))%nat -> e_proc (get_ev k' e0) = e_proc (get_ev k e0)) -> Pending k e -> Pending k' e.
+Proof.
+  intros Q L P (Le & H). split; [lia|]. destruct H as [(x & Hx & Ex)|H]; [left; exists x; rewrite Q; auto|right; rewrite P; auto].
+Qed.
+Lemma pending_new_event k e : Pending k e -> Pending (fst (new_event k)) e.
+Proof.
+  apply pending_evs_only; cbn; [reflexivity|rewrite app_length; lia|]. intros e0 L. unfold get_ev. cbn. rewrite app_nth1 by exact L. reflexivity.
+Qed.
+Lemma pending_mark_trig k e e' : Pending k e -> Pending (mark_trig k e') e.
+Proof.
+  apply pending_evs_only; cbn; [reflexivity|rewrite upd_length; lia|]. intros e0 L. unfold get_ev at 1. cbn.
+  apply get_ev_upd_proc; [reflexivity|exact L].
+Qed.
+Lemma pending_add_cb k e e' c : Pending k e -> Pending (add_cb k e' c) e.
+Proof.
+  apply pending_evs_only; cbn; [reflexivity|rewrite upd_length; lia|]. intros e0 L. unfold get_ev at 1. cbn.
+  apply get_ev_upd_proc; [reflexivity|exact L].
+Qed.
+Lemma pending_schedule k e e' p d : Pending k e -> Pending (schedule k e' p d) e.
+Proof.
+  intros (L & H). split; [exact L|]. destruct H as [(x & Hx & Ex)|H]; [left; exists x; split; [|exact Ex]; cbn; apply qins_in; right; exact Hx|right; exact H].
+Qed.
+Lemma pending_succeed k e e' k' : succeed k e' = Some k' -> Pending k e -> Pending k' e.
+Proof. unfold succeed. destruct (e_trig _); [discriminate|]. intros [= <-] P. apply pending_schedule. apply pending_mark_trig. exact P. Qed.
+Lemma pending_timeout k e d : Pending k e -> Pending (fst (timeout k d)) e.
+Proof. intros P. unfold timeout. cbn. apply pending_schedule. apply pending_mark_trig. apply (pending_new_event k e P). Qed.
+Lemma pending_check k e c : Pending k e -> Pending (check k c) e.
+Proof. intros P. unfold check. destruct (e_trig _); [exact P|]. apply pending_schedule. apply pending_mark_trig. exact P. Qed.
+Lemma pending_any_of k e es : Pending k e -> Pending (fst (any_of k es)) e.
+Proof.
+  intros P. unfold any_of. cbn. pose proof (pending_new_event k e P) as P1. destruct es as [|e0 es]; cbn [fst].
+  - apply pending_schedule. apply pending_mark_trig. exact P1.
+  - set (k1 := set_evs k (evs k ++ [ev0])) in *. change (fst (new_event k)) with k1 in P1. set (c := length (evs k)).
+    generalize (e0 :: es). intros l. revert P1. generalize k1. clear.
+    induction l as [|x l IH]; intros k1 P1; simpl; [exact P1|]. apply IH.
+    destruct (e_proc (get_ev k1 x)); [apply pending_check|apply pending_add_cb]; exact P1.
+Qed.
+Lemma pending_res_trig_put k e r k' r' : res_trig_put k r = Some (k', r') -> Pending k e -> Pending k' e.
+Proof.
+  unfold res_trig_put. destruct (r_putq r) as [|q rest]; [intros [= <- _]; auto|].
+  destruct (_ <? _)%nat; [|intros [= <- _]; auto]. destruct (succeed k q) as [k2|] eqn:S; [|discriminate].
+  intros [= <- _] A. eapply pending_succeed; eauto.
+Qed.
+Lemma pending_res_trig_get k e r k' r' : res_trig_get k r = Some (k', r') -> Pending k e -> Pending k' e.
+Proof.
+  unfold res_trig_get. destruct (r_getq r) as [|[g q] rest]; [intros [= <- _]; auto|].
+  destruct (succeed k g) as [k2|] eqn:S; [|discriminate]. intros [= <- _] A. eapply pending_succeed; eauto.
+Qed.
+Lemma pending_res_request k e rid r k' r' q : res_request k rid r = Some (k', r', q) -> Pending k e -> Pending k' e.
+Proof.
+  unfold res_request. cbn. intros H A.
+  match type of H with match res_trig_put ?a ?b with _ => _ end = _ => destruct (res_trig_put a b) as [[k3 r3]|] eqn:E; [|discriminate] end.
+  injection H as <- _ _. eapply pending_res_trig_put; [exact E|]. apply pending_add_cb. apply (pending_new_event k e A).
+Qed.
+Lemma pending_res_release k e rid r q k' r' g : res_release k rid r q = Some (k', r', g) -> Pending k e -> Pending k' e.
+Proof.
+  unfold res_release. cbn. intros H A.
+  match type of H with match res_trig_get ?a ?b with _ => _ end = _ => destruct (res_trig_get a b) as [[k3 r3]|] eqn:E; [|discriminate] end.
+  injection H as <- _ _. eapply pending_res_trig_get; [exact E|]. apply pending_add_cb. apply (pending_new_event k e A).
+Qed.
+Lemma pending_pop k e k' e' cbs : pop k = Some (k', e', cbs) -> Pending k e -> Pending k' e.
+Proof.
+  unfold pop. destruct (queue k) as [|x q] eqn:EQ; [discriminate|]. intros [= <- <- _] (L & H). split; [cbn; rewrite upd_length; exact L|].
+  destruct (Nat.eq_dec (q_ev x) e) as [E|N].
+  - right. unfold get_ev. cbn. rewrite E. rewrite nth_upd_same by exact L. reflexivity.
+  - destruct H as [(y & Hy & Ey)|H].
+    + left. exists y. cbn. split; [|exact Ey]. rewrite EQ in Hy. destruct Hy as [<-|Hy]; [congruence|exact Hy].
+    + right. unfold get_ev. cbn. rewrite nth_upd_neq by exact N. exact H.
+Qed.
+Lemma pending_kstep k k' e : kstep k k' -> Pending k e -> Pending k' e.
+Proof.
+  intros S A. destruct S.
+  - apply pending_new_event; exact A.
+  - apply pending_timeout; exact A.
+  - eapply pending_succeed; eauto.
+  - apply pending_add_cb; exact A.
+  - apply pending_check; exact A.
+  - apply pending_any_of; exact A.
+  - eapply pending_res_request; eauto.
+  - eapply pending_res_release; eauto.
+  - eapply pending_res_trig_put; eauto.
+  - eapply pending_res_trig_get; eauto.
+  - eapply pending_pop; eauto.
+Qed.
+
+Theorem timeout_not_lost k d k1 e :
+  QRefs k -> timeout k d = (k1, e) -> forall k2, ksteps k1 k2 -> Queued k2 e \/ e_proc (get_ev k2 e) = true.
+Proof.
+  intros R E k2 S. pose proof (timeout_arms k d R) as A. rewrite E in A. destruct A as ((L & _) & Q).
+  assert (P : Pending k1 e) by (split; [exact L|left; exact Q]).
+  assert (P2 : Pending k2 e).
+  { clear - S P. induction S; [exact P|]. eapply pending_kstep; [eassumption|]. apply IHS. exact P. }
+  destruct P2 as (_ & H). exact H.
+Qed.
